@@ -7,6 +7,7 @@ import IrVerif.Lemmas.SymExprSound
 import IrVerif.Lemmas.SymExprPrint
 import IrVerif.Lemmas.SymExprText
 import IrVerif.Lemmas.SymExprInt
+import IrVerif.Lemmas.SymExprLex
 namespace IrVerif.SymExpr
 
 /-- **C16_partial**: binding some symbols first and the rest later gives the value of binding
@@ -240,6 +241,35 @@ example : parseChars (render (pp (.un .neg (.bin .pow (.sym "N") (.num 2)))))
     result: on every text it returns what tokenizing and parsing would return. -/
 theorem C16_fast_path (cs : List Char) : parseChars cs = (tokenize cs).bind parseTokens :=
   parseChars_eq cs
+
+/-- **C16_tokenize_spec**: the tokenizer is exactly the longest-match lexer `Lex` (an inductive
+    specification that does not mention the implementation: blanks are dropped, a number / an
+    identifier is a MAXIMAL run of its character class, `//` and `**` win over `/` and `*`, every other
+    token is one character, nothing else is a token) — for every ASCII text, with any whitespace and
+    any adjacency; a text the specification gives no token list raises. -/
+theorem C16_tokenize_spec (cs : List Char) :
+    (∀ ts, tokenize cs = some ts ↔ Lex cs ts) ∧ (tokenize cs = none ↔ ¬ ∃ ts, Lex cs ts) := by
+  refine ⟨tokenize_iff_lex cs, ?_⟩
+  constructor
+  · rintro h ⟨ts, hl⟩
+    rw [(tokenize_iff_lex cs ts).mpr hl] at h
+    cases h
+  · intro h
+    cases ht : tokenize cs with
+    | none => rfl
+    | some ts => exact absurd ⟨ts, (tokenize_iff_lex cs ts).mp ht⟩ h
+
+/-- maximal munch, concretely: `N//M` is one `//`; `N***M` is `**` then `*`; `N/ /M` is two `/`;
+    digits glue (`12 3` vs `123`); a dot continues an identifier but cannot start one -/
+example : tokenize ['N', '/', '/', 'M'] = some [.ident "N", .op .dslash, .ident "M"] := by decide
+example : tokenize ['N', '*', '*', '*', 'M'] = some [.ident "N", .op .dstar, .op .star, .ident "M"] := by
+  decide
+example : tokenize ['N', '/', ' ', '/', 'M'] = some [.ident "N", .op .slash, .op .slash, .ident "M"] := by
+  decide
+example : tokenize ['1', '2', ' ', '3'] = some [.num 12, .num 3] := by decide
+example : tokenize ['a', '.', '1'] = some [.ident "a.1"] := by decide
+example : tokenize ['.', '5'] = none := by decide
+example : ¬ ∃ ts, Lex ['.', '5'] ts := (C16_tokenize_spec ['.', '5']).2.mp (by decide)
 
 /-- **C16_tokenize_render**: the tokenizer reads back every token list written with single spaces
     (numbers in decimal, identifier tokens carrying identifier texts). -/
